@@ -187,10 +187,15 @@ HTTPProtos == {"hls", "webrtc"}            \* behind the trusted proxy: the clie
 Scenarios ==
     {x \in [proto : Protos, mode : {"std", "http", "full"}, place : {"native", "basic", "bearer", "query"},
             action : Actions, cred : CredTok, cls : {"a", "b"},
-            reload : {"none", "other", "nonhot", "hot", "rehome"}, ip : {"127.0.0.1", "10.0.0.5", "10.0.0.50", "10.0.1.5"}] :
+            reload : {"none", "other", "nonhot", "hot", "rehome"}, ip : {"127.0.0.1", "10.0.0.5", "10.0.0.50", "10.0.1.5"},
+            proxy : {"trusted", "none"}] :
         /\ (x.proto = "hls" => x.action = "read")
         /\ (x.proto = "pm" => x.action = "publish")
-        /\ (x.proto \in HTTPProtos <=> x.ip # "127.0.0.1")
+        \* proxy "none": the listener trusts no proxy, the client IP is the TCP peer (127.0.0.1) and the
+        \* forwarding headers the request carries (naming 10.0.0.5, the host dave is allowed from) are forged
+        /\ (x.proxy = "none" => x.proto \in HTTPProtos)
+        /\ (x.proto \in HTTPProtos /\ x.proxy = "trusted" <=> x.ip # "127.0.0.1")
+        /\ (x.proxy = "none" /\ x.mode = "http" => x.place = "basic")
         /\ (x.proto = "webrtc" <=> x.mode # "std")
         /\ (x.proto = "webrtc" <=> x.place # "native")
         /\ (x.mode = "full" => x.place = "basic")
